@@ -1,6 +1,271 @@
+/-
+Model driver for C09 (worker pool).  One script per line, one result line per script.
+
+  run <repaired:0|1> <nworkers> <rcspec> <choice>*     → snapshots joined by " | " (first = initial state)
+  serial <rcspec> <op>*                                 → API return values of the serial pool model
+  monitor <submitted> <startedTickets> <returned>       → `ok` or the list of failing clauses
+
+  rcspec : "-" or "d:rc,d:rc,…"  (callback return value by item; default 0)
+  choice : s<d> q g x (main makes the call)   m / M (main continues / wakes spuriously)
+           w<i> / W<i> (worker i continues / wakes spuriously)
+  op     : s<d> q g x
+  lists  : "-" or comma separated naturals
+
+`sqfsmodel c09 rand <repaired> <nworkers> <rcspec> <seed> <count> <pSwitch%> <pSpur%> <op>*` prints `count` random
+schedules of the API script that follow the model's enabled sets (to termination, quiescence or deadlock).
+
+`sqfsmodel c09 enum <repaired> <nworkers> <rcspec> <preemptions> <spurious> <maxpaths> <op>*` is not a line
+op: it prints every schedule (as a `run …` line) of the given API script that the strict relation admits with
+at most that many pre-emptions and spurious wake-ups (depth first, complete when `maxpaths` is not hit; the
+last line is `#paths <n> complete|truncated`).
+-/
 import Driver.Util
+import Sqfs.Spec.Pool
 namespace Driver.C09
-/-- stub: the model driver for C09 is not built yet -/
-def run (_args : List String) : IO Unit := do
-  IO.eprintln "sqfsmodel: model C09 not built yet"
+open Sqfs.Pool
+
+def commaList (xs : List String) : String :=
+  if xs.isEmpty then "-" else ",".intercalate xs
+
+def showItems (l : List Item) : String :=
+  commaList (l.map fun it => s!"{it.ticket}:{it.data}")
+
+def b01 (b : Bool) : String := if b then "1" else "0"
+
+def showW : WPc → String
+  | .start => "start"
+  | .waitQ sig => "waitQ" ++ b01 sig
+  | .working it => s!"work:{it.data}"
+  | .finishing it rc => s!"fin:{it.data}:{rc}"
+  | .exited => "exit"
+
+def showM : MPc → String
+  | .idle => "idle"
+  | .submitLock d => s!"submitLock:{d}"
+  | .deqLock => "deqLock"
+  | .deqWait sig => "deqWait" ++ b01 sig
+  | .statusLock => "statusLock"
+  | .destroyLock => "destroyLock"
+  | .join i => s!"join:{i}"
+  | .finished => "finished"
+
+def showRet : Ret → String
+  | .submit rc => s!"sub:{rc}"
+  | .deq none => "deq:null"
+  | .deq (some d) => s!"deq:{d}"
+  | .status rc => s!"st:{rc}"
+  | .destroyed => "destroyed"
+
+def enabledList (s : State) : List String :=
+  (if mainContEnabled s then ["m"] else []) ++
+  ((List.range s.workers.length).filter (workerEnabled s)).map (fun i => s!"w{i}")
+
+/-- snapshot of a state; `ret` is the API return value produced by the step that led here -/
+def snapshot (s : State) (ret : Option Ret) : String :=
+  let r := match ret with | none => "-" | some x => showRet x
+  let ws := commaList (s.workers.map showW)
+  if s.main = .finished then
+    s!"destroyed m=finished w={ws} r={r}"
+  else
+    s!"Q={showItems s.queue} D={showItems s.done} S={showItems s.safeDone} nt={s.nextTicket} nd={s.nextDeq} " ++
+    s!"ic={s.itemCount} st={s.status} rec={s.recycle} m={showM s.main} w={ws} r={r} " ++
+    s!"en={commaList (enabledList s)} dl={b01 (isDeadlock s)}"
+
+def parseInt (t : String) : Option Int :=
+  if t.startsWith "-" then (t.drop 1).toString.toNat?.map (fun n => - (n : Int)) else t.toNat?.map (fun n => (n : Int))
+
+def parseRcSpec (t : String) : Option (List (Nat × Int)) :=
+  if t = "-" then some [] else
+  (t.splitOn ",").mapM fun p =>
+    match p.splitOn ":" with
+    | [a, b] => do let d ← a.toNat?; let r ← parseInt b; pure (d, r)
+    | _ => none
+
+def rcFun (tbl : List (Nat × Int)) (d : Nat) : Int :=
+  match tbl.find? (·.1 == d) with
+  | some p => p.2
+  | none => 0
+
+def parseOp (t : String) : Option Op :=
+  if t = "q" then some .dequeue
+  else if t = "g" then some .getStatus
+  else if t = "x" then some .destroy
+  else if t.startsWith "s" then (t.drop 1).toString.toNat?.map .submit
+  else none
+
+def parseChoice (t : String) : Option Choice :=
+  if t = "m" then some (.main (.cont false))
+  else if t = "M" then some (.main (.cont true))
+  else if t.startsWith "w" then (t.drop 1).toString.toNat?.map (.worker · false)
+  else if t.startsWith "W" then (t.drop 1).toString.toNat?.map (.worker · true)
+  else (parseOp t).map (fun o => .main (.call o))
+
+def showOp : Op → String
+  | .submit d => s!"s{d}"
+  | .dequeue => "q"
+  | .getStatus => "g"
+  | .destroy => "x"
+
+def showChoice : Choice → String
+  | .main (.call o) => showOp o
+  | .main (.cont false) => "m"
+  | .main (.cont true) => "M"
+  | .worker i false => s!"w{i}"
+  | .worker i true => s!"W{i}"
+
+def parseNatList (t : String) : Option (List Nat) :=
+  if t = "-" then some [] else (t.splitOn ",").mapM (·.toNat?)
+
+def runScript (cfg : Cfg) (n : Nat) (cs : List Choice) : String :=
+  let rec go (s : State) (cs : List Choice) (acc : List String) : List String :=
+    match cs with
+    | [] => acc.reverse
+    | c :: r =>
+      match step cfg s c with
+      | none => go s r ("ne" :: acc)
+      | some s' =>
+        let ret := if s'.rets.length > s.rets.length then s'.rets.getLast? else none
+        go s' r (snapshot s' ret :: acc)
+  let s0 := init n
+  let fin := run cfg s0 cs
+  " | ".intercalate (go s0 cs [snapshot s0 none]) ++
+    s!" || sub={commaList (fin.submitted.map toString)} cb={commaList (fin.started.map fun p => s!"{p.1}:{p.2.data}")} " ++
+    s!"ret={commaList (fin.returned.map toString)}"
+
+def stepLine (line : String) : String :=
+  match words line with
+  | "run" :: rep :: n :: rc :: cs =>
+      match (if rep = "0" then some false else if rep = "1" then some true else none), n.toNat?, parseRcSpec rc,
+            cs.mapM parseChoice with
+      | some rep, some n, some tbl, some cs => runScript { repaired := rep, rcOf := rcFun tbl } n cs
+      | _, _, _, _ => "bad-op"
+  | "serial" :: rc :: ops =>
+      match parseRcSpec rc, ops.mapM parseOp with
+      | some tbl, some ops => commaList ((Serial.run (rcFun tbl) Serial.init ops).rets.map showRet)
+      | _, _ => "bad-op"
+  | ["monitor", sub, st, ret] =>
+      match parseNatList sub, parseNatList st, parseNatList ret with
+      | some sub, some st, some ret =>
+          let bad := (if fifoOk sub ret then [] else ["fifo"]) ++ (if onceOk st then [] else ["once"]) ++
+                     (if processedOk st ret.length then [] else ["processed"])
+          if bad.isEmpty then "ok" else "violated " ++ ",".intercalate bad
+      | _, _, _ => "bad-op"
+  | _ => "bad-op"
+
+/-! ### schedule enumeration (validation of the model only — never an obligation) -/
+
+structure EnumCfg where
+  cfg : Cfg
+  maxPaths : Nat
+  header : String
+
+/-- thread id: 0 = main, i+1 = worker i -/
+def choiceTid : Choice → Nat
+  | .main _ => 0
+  | .worker i _ => i + 1
+
+/-- strict choices available in `s` with the remaining API script `ops` -/
+def strictChoices (s : State) (ops : List Op) : List Choice :=
+  (match s.main, ops with
+   | .idle, o :: _ => [Choice.main (.call o)]
+   | _, _ => if mainContEnabled s then [Choice.main (.cont false)] else []) ++
+  ((List.range s.workers.length).filter (workerEnabled s)).map (fun i => Choice.worker i false)
+
+def spuriousChoices (s : State) : List Choice :=
+  (match s.main with | .deqWait false => [Choice.main (.cont true)] | _ => []) ++
+  ((List.range s.workers.length).filter (fun i => s.workers[i]? == some (.waitQ false))).map (fun i => Choice.worker i true)
+
+partial def dfs (e : EnumCfg) (out : IO.FS.Stream) (count : IO.Ref Nat) (s : State) (ops : List Op)
+    (last : Option Nat) (pre spur : Nat) (path : List String) : IO Unit := do
+  if (← count.get) ≥ e.maxPaths then return
+  let sc := strictChoices s ops
+  let lastEnabled := match last with | some t => sc.any (fun c => choiceTid c == t) | none => false
+  let cands := sc.filterMap fun c =>
+    let cost := if lastEnabled && some (choiceTid c) != last then 1 else 0
+    if cost ≤ pre then some (c, pre - cost, spur) else none
+  let cands := cands ++ (if spur > 0 then (spuriousChoices s).map (fun c => (c, pre, spur - 1)) else [])
+  if sc.isEmpty then
+    -- terminal: nothing can run strictly (finished, quiescent, or deadlock)
+    count.modify (· + 1)
+    out.putStrLn (e.header ++ " " ++ " ".intercalate path.reverse)
+    return
+  if cands.isEmpty then return
+  for (c, pre', spur') in cands do
+    match step e.cfg s c with
+    | none => pure ()
+    | some s' =>
+      let ops' := match c with | .main (.call _) => ops.drop 1 | _ => ops
+      dfs e out count s' ops' (some (choiceTid c)) pre' spur' (showChoice c :: path)
+
+def enumMain (args : List String) : IO Unit := do
+  let out ← IO.getStdout
+  match args with
+  | rep :: n :: rc :: pre :: spur :: maxp :: ops =>
+    match n.toNat?, parseRcSpec rc, pre.toNat?, spur.toNat?, maxp.toNat?, ops.mapM parseOp with
+    | some n, some tbl, some pre, some spur, some maxp, some ops =>
+      let e : EnumCfg := { cfg := { repaired := rep == "1", rcOf := rcFun tbl }, maxPaths := maxp,
+                           header := s!"run {rep} {n} {rc}" }
+      let count ← IO.mkRef 0
+      dfs e out count (init n) ops none pre spur []
+      let c ← count.get
+      out.putStrLn s!"#paths {c} {if c ≥ maxp then "truncated" else "complete"}"
+    | _, _, _, _, _, _ => out.putStrLn "bad-op"
+  | _ => out.putStrLn "bad-op"
+
+/-! ### random schedules that follow the model's enabled sets (validation only) -/
+
+def lcg (x : Nat) : Nat := (x * 6364136223846793005 + 1442695040888963407) % 18446744073709551616
+
+def pick {α : Type} (x : Nat) (l : List α) : Option α := l[(x / 4294967296) % l.length]?
+
+/-- one random schedule: with probability `pSwitch`% pick any enabled thread, else keep running the last one
+while it is enabled; with probability `pSpur`% take a spurious wake-up when one is possible. -/
+def randPath (cfg : Cfg) (pSwitch pSpur : Nat) (fuel : Nat) (s : State) (ops : List Op) (last : Option Nat)
+    (x : Nat) (acc : List String) : List String × Nat :=
+  match fuel with
+  | 0 => (acc.reverse, x)
+  | fuel + 1 =>
+    let sc := strictChoices s ops
+    let sp := spuriousChoices s
+    let x1 := lcg x
+    let x2 := lcg x1
+    let x3 := lcg x2
+    let c? : Option Choice :=
+      if !sp.isEmpty && (x1 / 4294967296) % 100 < pSpur then pick x2 sp
+      else if sc.isEmpty then none
+      else
+        let keep := match last with | some t => sc.find? (fun c => choiceTid c == t) | none => none
+        match keep with
+        | some c => if (x2 / 4294967296) % 100 < pSwitch then pick x3 sc else some c
+        | none => pick x3 sc
+    match c? with
+    | none => (acc.reverse, x3)
+    | some c =>
+      match step cfg s c with
+      | none => (acc.reverse, x3)
+      | some s' =>
+        let ops' := match c with | .main (.call _) => ops.drop 1 | _ => ops
+        randPath cfg pSwitch pSpur fuel s' ops' (some (choiceTid c)) x3 (showChoice c :: acc)
+
+def randMain (args : List String) : IO Unit := do
+  let out ← IO.getStdout
+  match args with
+  | rep :: n :: rc :: seed :: count :: psw :: psp :: ops =>
+    match n.toNat?, parseRcSpec rc, seed.toNat?, count.toNat?, psw.toNat?, psp.toNat?, ops.mapM parseOp with
+    | some n, some tbl, some seed, some count, some psw, some psp, some ops =>
+      let cfg : Cfg := { repaired := rep == "1", rcOf := rcFun tbl }
+      let mut x := lcg (seed + 12345)
+      for _ in [0:count] do
+        let (path, x') := randPath cfg psw psp 100000 (init n) ops none x []
+        x := x'
+        out.putStrLn (s!"run {rep} {n} {rc} " ++ " ".intercalate path)
+    | _, _, _, _, _, _, _ => out.putStrLn "bad-op"
+  | _ => out.putStrLn "bad-op"
+
+def run (args : List String) : IO Unit := do
+  match args with
+  | "enum" :: r => enumMain r
+  | "rand" :: r => randMain r
+  | _ => lineLoop (← IO.getStdin) (← IO.getStdout) stepLine
+
 end Driver.C09
